@@ -197,7 +197,7 @@ pub fn same_edit_sweep(rep: &mut Report, thorough: bool) {
     }
     let nd = docs.len();
     let m = menu(docs.clone());
-    let sc = Scenario { name: "same-edits".into(), nrep: 2, menu: m.clone(), prologue: vec![], alphabet: vec![], key_opts: KeyOpts::default(), max_depth: 0, track: false };
+    let sc = Scenario { name: "same-edits".into(), nrep: 2, menu: m.clone(), prologue: vec![], alphabet: vec![], key_opts: KeyOpts::default(), max_depth: 0, track: false, order: None };
     let mut cx = Cx::default();
     let mut cases = 0u64;
     for d1 in 1..nd {
